@@ -391,7 +391,17 @@ func (g *gen) returnLine() {
 	}
 	var parts []string
 	for _, r := range g.fn.res {
-		parts = append(parts, g.expr(r, g.ed()))
+		e := g.expr(r, g.ed())
+		if g.fn.resNames == nil && (r.Kind == kStruct || r.Kind == kArr || r.Kind == kInner) {
+			// An unnamed composite result is returned through a local: the compiler may build
+			// a composite literal directly in the result slot, so that a panic half-way through
+			// (recovered by a deferred function) leaves a partly written result. That is
+			// compiler-specific behaviour and not part of the semantics the IR is compared with.
+			tmp := g.fresh("ret")
+			g.line("%s := %s", tmp, e)
+			e = tmp
+		}
+		parts = append(parts, e)
 	}
 	if len(parts) > 1 {
 		g.feat("multi-return")
